@@ -179,6 +179,10 @@ def _body_wo_doc(fn):
 
 def _inlinable_shape(fn: ast.FunctionDef) -> bool:
     a = fn.args
+    # a helper with an open-ended loop (while / break) is an algorithm of its own, not glue: it is left as a call
+    # (search helpers of the shape `for ..: if ..: return CONST` / `return CONST` are still turned into any()/all())
+    if any(isinstance(n, (ast.While, ast.Break)) for n in ast.walk(fn)):
+        return False
     if a.vararg or a.kwarg or a.posonlyargs and False:
         return False
     n_stmts = 0
@@ -649,6 +653,16 @@ class Normalizer:
                 self.log.append(f"E {mod}:{s.lineno} `{s.value.func.value.id}.extend([...])` written out as appends")
                 changed = True
                 continue
+            # E3: the three columns of a LightWeightEdgeList are written with extend on the pinned tree;
+            # `<x>.edge_list.append(v)` (no instance on that tree) is the same as `<x>.edge_list.extend([v])`
+            if isinstance(s, ast.Expr) and isinstance(s.value, ast.Call) and isinstance(s.value.func, ast.Attribute) and s.value.func.attr == "append" \
+                    and isinstance(s.value.func.value, ast.Attribute) and s.value.func.value.attr in ("edge_list", "topologies", "motif_id") \
+                    and len(s.value.args) == 1 and not s.value.keywords and not isinstance(s.value.args[0], ast.Starred):
+                s.value.func.attr = "extend"
+                s.value.args = [ast.copy_location(ast.List(elts=[s.value.args[0]], ctx=ast.Load()), s.value.args[0])]
+                ast.fix_missing_locations(s)
+                self.log.append(f"E {mod}:{s.lineno} column append written as extend([..])")
+                changed = True
             # C: a list comprehension that calls a statement helper is written out as the loop it abbreviates, so
             # that the helper can be spliced into the loop body in the next round
             exp = self._expand_comprehension(s, mod, cls, self_name)
